@@ -112,10 +112,13 @@ class Model(HoloPyObject):
         dummy_scatterer = fields['_dummy_scatterer']
         scatterer_parameters = read_map(maps['scatterer'], parameters)
         scatterer = dummy_scatterer.from_parameters(scatterer_parameters)
-        kwargs = {'scatterer': scatterer, 'theory': fields['theory']}
+        # the theory's own parameters (e.g. lens_angle) belong to the theory
+        theory = fields['theory'].from_parameters(
+            read_map(maps['theory'], parameters))
+        kwargs = {'scatterer': scatterer, 'theory': theory}
         if 'constraints' in fields:
             kwargs['constraints'] = fields['constraints']
-        for key in ['optics', 'model', 'theory']:
+        for key in ['optics', 'model']:
             kwargs.update(read_map(maps[key], parameters))
         model = cls(**kwargs)
         if model._parameters == parameters:
